@@ -503,6 +503,83 @@ pub fn apply_act(a: &Act, me: Option<&Node>) {
                 }
             }
         }
+        Act::MakeMutField(q, k) => {
+            // the real thing: `Rc::make_mut(&mut value.out[k])` on a handle that stays inside the holder's value.
+            // The model runs it as `take q k; makeMut <taken>; store <taken> q` (lean/Cactus/Driver.lean), so the
+            // slot is moved to the end of the vector afterwards (a move of an `Rc` the library cannot see).
+            // A slot designating the holder itself is skipped on both sides (the expansion is not faithful there).
+            let loc = with(|w| {
+                let j = w.use_root(q)?;
+                let o = w.root_ids[j];
+                let holder: *const Node = Rc::as_ptr(&w.roots[j]);
+                let mut out = w.roots[j].out.borrow_mut();
+                if out.is_empty() {
+                    return None;
+                }
+                let kk = idx(out.len(), k);
+                let t = w.objs[o].val.held[kk];
+                if t == o {
+                    return None;
+                }
+                if !w.is_live(t) {
+                    if w.stop.is_none() {
+                        w.stop = Some(format!("dangling{}", t));
+                    }
+                    return None;
+                }
+                out.reserve(64);
+                let slot: *mut Rc<Node> = &mut out[kk];
+                Some((o, kk, t, slot, holder))
+            });
+            if let Some((o, kk, id, slot, holder)) = loc {
+                // no `RefCell` guard of the holder is alive here: `Clone for Node` may read any field vector
+                let h: &mut Rc<Node> = unsafe { &mut *slot };
+                let before = Rc::as_ptr(h) as usize;
+                let vid_before = h.vid;
+                let (sc, wc) = (Rc::strong_count(h), Rc::weak_count(h));
+                let old_led = with(|w| w.objs[id].val.clone());
+                let res = catch_unwind(AssertUnwindSafe(|| {
+                    let _ = Rc::make_mut(unsafe { &mut *slot });
+                }));
+                let h: &Rc<Node> = unsafe { &*slot };
+                let after = Rc::as_ptr(h) as usize;
+                with(|w| {
+                    let took = if after == before { 0 } else if h.vid != vid_before { 2 } else { 1 };
+                    let want = if sc != 1 { 2 } else if wc != 0 { 1 } else { 0 };
+                    if took != want && res.is_ok() {
+                        w.errs.push(format!("O12:make_mut-in-place-took-branch-{}-expected-{}-(strong-{}-weak-{})", took, want, sc, wc));
+                    }
+                    let new_id = if after != before {
+                        let vid = h.vid;
+                        if took == 2 {
+                            w.rets.push(2);
+                            w.dropped_targets.push(id);
+                            let led = if h.shallow.get() { ValLedger::default() } else { old_led.clone() };
+                            w.register(h, vid, led)
+                        } else {
+                            w.rets.push(1);
+                            let led = std::mem::take(&mut w.objs[id].val);
+                            w.objs[id].gone = true;
+                            w.purge_ledger(id);
+                            w.vid_obj.remove(&led.vid);
+                            w.register(h, vid, led)
+                        }
+                    } else {
+                        w.rets.push(0);
+                        id
+                    };
+                    let hd: &Node = unsafe { &*holder };
+                    let mut out = hd.out.borrow_mut();
+                    let moved = out.remove(kk);
+                    out.push(moved);
+                    w.objs[o].val.held.remove(kk);
+                    w.objs[o].val.held.push(new_id);
+                });
+                if let Err(p) = res {
+                    resume_unwind(p);
+                }
+            }
+        }
         Act::GetMut(r) => with(|w| {
             if let Some(i) = w.use_root(r) {
                 let b = Rc::get_mut(&mut w.roots[i]).is_some();
